@@ -69,6 +69,9 @@ type Ev struct {
 //	uver   same id, version-1                     -> must be rejected
 //	uover  fresh id, overlapping, version below the newest overlapped region -> must be rejected
 //	eqver  fresh id, overlapping, version equal to the newest overlapped region -> not "older", accepted
+//	grow   same id, version, conf_ver and peers, another approximate size, the range extended over the left or
+//	       right neighbour whose version is not higher -> not stale, accepted, the neighbour is displaced
+//	       (cache and storage); the region's own record is not claimed (no epoch change, see assumptions)
 //
 // seq only: K=="fail" arms a clean failure of the (1+A%3)-th storage write of the next
 // heartbeat (the heartbeat itself still succeeds, storage lags); K=="restart" replaces
@@ -196,7 +199,7 @@ func genBase(t *rapid.T, minEv, maxEv int, faults int) Case {
 		c.Dels = append(c.Dels, it.d)
 		if rapid.IntRange(0, 11).Draw(t, "fab") == 0 {
 			c.Dels = append(c.Dels, Dl{
-				K: rapid.SampledFrom([]string{"uconf", "uterm", "uver", "uover", "uover", "eqver"}).Draw(t, "fabKind"),
+				K: rapid.SampledFrom([]string{"uconf", "uterm", "uver", "uover", "uover", "eqver", "grow"}).Draw(t, "fabKind"),
 				I: rapid.IntRange(0, 63).Draw(t, "fabPick"),
 				A: rapid.IntRange(0, 63).Draw(t, "fabAux"),
 			})
@@ -559,6 +562,22 @@ func fabricate(d Dl, cached []entry, i int, h *hb, fresh func() uint64) *hb {
 		if d.A%3 == 1 && i+1 < len(cached) {
 			h.End = cached[i+1].end
 		}
+	case "grow":
+		// same id, same epoch, same peers; the range grows over a neighbour that is not newer and
+		// something cache-only (the approximate size) differs, so that it is not "nothing changed"
+		j := i + 1
+		if d.A%2 == 1 {
+			j = i - 1
+		}
+		if j < 0 || j >= len(cached) || cached[j].id == h.ID || cached[j].ver > h.Ver {
+			return nil
+		}
+		if j > i {
+			h.End = cached[j].end
+		} else {
+			h.Start = cached[j].start
+		}
+		h.SizeMB += 2 // +1 is not enough: a reported size of 0 is cached as 1 MB (an empty region)
 	case "uover", "eqver":
 		h.ID = fresh()
 		switch d.A % 4 {
